@@ -461,7 +461,8 @@ fn gen_other_csi(r: &mut Rng, out: &mut Vec<u8>) {
     if marked {
         out.push(b'm');
     } else {
-        out.push(*r.pick(b"ABCDHJKSTfhlnrsu"));
+        // every final byte class: letters, '@', '`', and the edges of the range ('~' ends function-key reports CSI 15 ~)
+        out.push(*r.pick(b"ABCDHJKSTfhlnrsu@`{|}~~~[]^_"));
     }
 }
 
@@ -512,10 +513,13 @@ pub fn gen_styled_text(r: &mut Rng, target: usize, xmlish: bool) -> Vec<u8> {
             }
             18 => gen_esc(r, &mut out),
             _ => {
-                if xmlish {
+                if xmlish && r.chance(1, 4) {
+                    // controls that are executed, not shown (VT is not one of the whitespace controls TAB LF FF CR)
+                    out.push(*r.pick(&[0x0bu8, 0x0b, 0x01, 0x0e, 0x1f, 0x7f, 0x08]));
+                } else if xmlish {
                     out.extend_from_slice(*r.pick(&[&b"<a&b>"[..], b"\"q\"", b"'", b"&amp;", b"]]>", b"\r\n", b"<!--"]));
                 } else {
-                    out.push(*r.pick(&[0u8, 7, 8, 0x7f, 0x18]));
+                    out.push(*r.pick(&[0u8, 7, 8, 0x7f, 0x18, 0x0b, 0x0e, 0x1c, 0x1f, 0x01]));
                 }
             }
         }
